@@ -39,6 +39,7 @@ type Gen struct {
 	Links        bool // file ops also create symlinks (C20)
 	RepeatPct    int  // percent of result attachments that are repeated verbatim
 	EditAgainPct int  // percent of text edits that are followed by another edit of the same field of the same item
+	ReclaimPct   int  // percent of claims by id that are followed by release and a second claim
 	MixPct       int  // percent of JSON-stdin creations that also carry a field flag (undefined input, invariants only)
 	ResPct       int  // extra percent of set commands that attach a result
 	AimPct       int  // percent of commands found by searching the model for a rare outcome class (aim.go)
@@ -513,6 +514,14 @@ func (g *Gen) next2(m *Model) Step {
 		return Step{Cmd: &c}
 	case "claim_id":
 		c := Cmd{Op: "claim_id", Agent: g.agent(), ID: g.ref(m, isTask, g.bad()), Human: human}
+		if g.ReclaimPct > 0 && g.R.Intn(100) < g.ReclaimPct {
+			// claimed, released, claimed again by somebody else (whatever the
+			// clock did in between): the second claimant is the claimant
+			g.queue = append(g.queue,
+				Step{Cmd: &Cmd{Op: "set", Mode: "json", ID: c.ID, State: sp("todo"), Claim: sp("")}},
+				Step{Cmd: &Cmd{Op: "claim_id", Agent: g.agent(), ID: c.ID}},
+				Step{Cmd: &Cmd{Op: "show", ID: c.ID}})
+		}
 		if g.R.Chance(1, 20) {
 			c.Agent = ""
 		}
